@@ -47,7 +47,11 @@ Definition saddr := (ip * N)%type.
 Definition saddr_eqb (a b : saddr) : bool := ip_eqb (fst a) (fst b) && (snd a =? snd b).
 
 Inductive tstate := SynSent | SynReceived | Established | Closed.
-Record tcb := mktcb { t_state : tstate; t_peer : saddr; t_reset : bool; t_recv : list N }.
+(* t_sync: the acknowledgement numbers this end sends are the ones its peer expects.  False for a
+   connecting socket that went Established on a forged SYN-ACK (poll_connect does not validate it):
+   its ACKs never complete the handshake of the real child, whose SynReceived branch checks
+   `s.ack == snd_nxt`.  Sequence numbers themselves stay abstract. *)
+Record tcb := mktcb { t_state : tstate; t_peer : saddr; t_reset : bool; t_recv : list N; t_sync : bool }.
 
 Record sock := mksock {
   s_dom : dom; s_ty : sty;
@@ -192,6 +196,9 @@ Definition listen (k : kern) (fd : N) : kern := upd k fd (fun s => sk_listen s (
 
 (* ---- packets -------------------------------------------------------------------- *)
 Definition F_SYN : N := 1. Definition F_ACK : N := 2. Definition F_FIN : N := 4. Definition F_RST : N := 8.
+(* ghost flag: the segment's acknowledgement number is the one its receiver expects *)
+Definition F_OK : N := 16.
+Definition ack_flags (ok : bool) : N := if ok then F_ACK + F_OK else F_ACK.
 Definition has (flags bit : N) : bool := N.testbit flags (N.log2 bit).
 Definition emit (k : kern) (src dst : saddr) (flags tag : N) : kern :=
   set_out k (k_out k ++ [mkpkt tag (fst src) (fst dst) 1 (snd src) (snd dst) flags]).
@@ -308,9 +315,9 @@ Definition accept_syn (k : kern) (listener : N) (local remote : saddr) : kern :=
             let key := mkkey (s_dom ls) (s_ty ls) (fst local) (snd local) in
             let k2 := insert_binding k1 key child in
             let k3 := upd k2 child (fun s => sk_tcb (sk_peer (sk_bound s (Some key)) (Some remote))
-                                                   (Some (mktcb SynReceived remote false []))) in
+                                                   (Some (mktcb SynReceived remote false [] true))) in
             let k4 := insert_conn k3 local remote child in
-            emit k4 local remote (F_SYN + F_ACK) 0
+            emit k4 local remote (F_SYN + F_ACK + F_OK) 0
       end
   end.
 
@@ -330,7 +337,7 @@ Definition conn_deliver (k : kern) (fd : N) (local remote : saddr) (p : pkt) : k
     (* abort_with: a child still in SynReceived is owned by nobody: mark it kernel-closed *)
     upd k fd (fun s => match s_tcb s with
                        | Some t => sk_tcb (if tstate_eqb (t_state t) SynReceived then sk_fdc s true else s)
-                                          (Some (mktcb Closed (t_peer t) true []))
+                                          (Some (mktcb Closed (t_peer t) true [] (t_sync t)))
                        | None => s end)
   else
     match get k fd with
@@ -342,17 +349,18 @@ Definition conn_deliver (k : kern) (fd : N) (local remote : saddr) (p : pkt) : k
             match t_state t with
             | SynSent =>
                 if has (p_flags p) F_SYN && has (p_flags p) F_ACK
-                then emit (set_tcb k fd (fun t => mktcb Established (t_peer t) (t_reset t) (t_recv t))) local remote F_ACK 0
+                then emit (set_tcb k fd (fun t => mktcb Established (t_peer t) (t_reset t) (t_recv t) (has (p_flags p) F_OK)))
+                          local remote (ack_flags (has (p_flags p) F_OK)) 0
                 else k
             | SynReceived =>
-                if has (p_flags p) F_ACK && negb (has (p_flags p) F_SYN)
-                then push_to_listener (set_tcb k fd (fun t => mktcb Established (t_peer t) (t_reset t) (t_recv t))) fd local
+                if has (p_flags p) F_ACK && negb (has (p_flags p) F_SYN) && has (p_flags p) F_OK      (* s.ack == snd_nxt *)
+                then push_to_listener (set_tcb k fd (fun t => mktcb Established (t_peer t) (t_reset t) (t_recv t) (t_sync t))) fd local
                 else k
             | Established =>
                 if negb (p_id p =? 0)
-                then emit (set_tcb k fd (fun t => mktcb (t_state t) (t_peer t) (t_reset t) (t_recv t ++ [p_id p]))) local remote F_ACK 0
+                then emit (set_tcb k fd (fun t => mktcb (t_state t) (t_peer t) (t_reset t) (t_recv t ++ [p_id p]) (t_sync t))) local remote (ack_flags (t_sync t)) 0
                 else if has (p_flags p) F_SYN
-                then emit k local remote F_ACK 0      (* occupies sequence space, not accepted: re-ACK *)
+                then emit k local remote (ack_flags (t_sync t)) 0      (* occupies sequence space, not accepted: re-ACK *)
                 else k
             | Closed => k
             end
@@ -391,7 +399,7 @@ Definition tcp_connect_first (k : kern) (peer : saddr) : kern * cres :=
           let key := mkkey d Stream lip port in
           let k3 := upd (insert_binding k2 key fd) fd (fun s => sk_bound s (Some key)) in
           let src := (lip, port) in
-          let k4 := upd k3 fd (fun s => sk_peer (sk_tcb s (Some (mktcb SynSent peer false []))) (Some peer)) in
+          let k4 := upd k3 fd (fun s => sk_peer (sk_tcb s (Some (mktcb SynSent peer false [] true))) (Some peer)) in
           (emit (insert_conn k4 src peer fd) src peer F_SYN 0, CPending fd)
       end
   end.
